@@ -54,6 +54,11 @@ class BuiltinMixin:
             if recv.pt == "any":
                 self.typing_assumptions += 1          # receiver of a str-only method is viewed as a str
                 return self.str_method(self.unbox(recv, "str"), fn.attr, [self.ev(a, st, fr) for a in node.args], {}, st, fr, node)
+        if isinstance(fn, ast.Attribute) and ("clsmethod:" + fn.attr) in self.side.assumed:
+            recv = self.ev(fn.value, st, fr)
+            if recv.pt == "class" and not (recv.py and recv.py[0] == "class"):
+                args, kwargs = self.eval_args(node, st, fr)
+                return self.call_named("clsmethod:" + fn.attr, [recv] + args, kwargs, st, fr, node)
         if isinstance(fn, ast.Attribute) and ("method:" + fn.attr) in self.side.assumed:
             recv = self.ev(fn.value, st, fr)
             if (recv.pt == "any" and self.unique_method_root(fn.attr) is None) or recv.pt.startswith("obj:"):
@@ -96,6 +101,8 @@ class BuiltinMixin:
                 return self.call_named(callee.py[1], args, kwargs, st, fr, node)
             if kind == "func":
                 return self.call_function(callee.py[1], args, kwargs, st, fr, node)
+            if kind == "extmethod":
+                return self.call_named("method:" + callee.py[2], [callee.py[1]] + args, kwargs, st, fr, node)
         if callee.pt == "class":
             args, kwargs = self.eval_args(node, st, fr)
             return self.construct(callee, args, kwargs, st, fr, node)
@@ -381,6 +388,8 @@ class BuiltinMixin:
                 return self.call_closure(f.py[1], args, {}, st, fr, node)
             if k == "func":
                 return self.call_function(f.py[1], args, {}, st, fr, node)
+            if k == "extmethod":
+                return self.call_named("method:" + f.py[2], [f.py[1]] + args, {}, st, fr, node)
         if f.pt == "class":
             return self.construct(f, args, {}, st, fr, node)
         raise Untranslatable("apply of non-callable")
@@ -458,7 +467,7 @@ class BuiltinMixin:
     # ------------------------------------------------------------------ spec-only functions (contract language)
     SPEC_ONLY = {"card", "implies", "iff", "forall", "exists", "subset", "set_eq", "old", "is_class", "keys_of",
                  "ty_is", "same_class", "unchanged", "fresh_obj", "no_effects", "effects", "attr", "sel", "tuple2", "sval", "ival",
-                 "local", "as_set_of", "distinct", "cls_name", "clsattr", "written_text", "opened_path", "ext", "box_bool", "tl_get", "raw_tq_ok", "is_blank", "attr_of", "eq_str", "mro_of", "as_dict", "as_list", "as_set", "seq_len", "dict_len", "truthy", "dict_get", "pyeval_str", "at", "is_none"}
+                 "local", "accepts", "matches", "is_json", "as_set_of", "distinct", "cls_name", "clsattr", "written_text", "opened_path", "ext", "box_bool", "tl_get", "raw_tq_ok", "is_blank", "attr_of", "eq_str", "mro_of", "as_dict", "as_list", "as_set", "seq_len", "dict_len", "truthy", "dict_get", "pyeval_str", "at", "is_none"}
     SPEC_CONSTS = {}
 
     def bi_card(self, node, st, fr):
@@ -580,6 +589,13 @@ class BuiltinMixin:
             raise Untranslatable("old() outside a postcondition")
         tmp = fr.old_state.copy()
         tmp.guards, tmp.facts = st.guards, st.facts
+        # entry heap, but the clause's own bindings (parameters keep their entry values; lambda-bound names stay visible)
+        env = dict(st.env)
+        env.update(fr.old_state.env)
+        for k_, v_ in st.env.items():
+            if k_ not in fr.old_state.env:
+                env[k_] = v_
+        tmp.env = env
         return self.ev(node.args[0], tmp, fr)
 
     def bi_ty_is(self, node, st, fr):
@@ -699,7 +715,10 @@ class BuiltinMixin:
                 x = self.with_sort(x.t, fr.contract.sorts[name])
             return x
         if env is not None:
-            raise Untranslatable(f"contract refers to local {name!r} which is not a local of the function any more")
+            assigned = {n.id for n in ast.walk(fr.fi.node) if isinstance(n, ast.Name) and isinstance(n.ctx, ast.Store)} if fr.fi is not None else set()
+            if name not in assigned:
+                raise Untranslatable(f"contract refers to local {name!r} which is not a local of the function any more")
+            # a local of the function that is unset on this path: unconstrained
         cache = fr.__dict__.setdefault("_local_cache", {})
         if name not in cache:
             pt = fr.contract.sorts.get(name, "any") if fr.contract is not None else "any"
@@ -768,3 +787,39 @@ class BuiltinMixin:
     def bi_as_set_of(self, node, st, fr):
         x = self.ev(node.args[0], st, fr)
         return SV(self.as_set(x, st, fr, node).t, "set")
+
+    def bi_accepts(self, node, st, fr):
+        """accepts(pseudo_type, s): the spec relation of C09 (uninterpreted; tied to the parsers by an assumed contract)"""
+        t = self.box(self.ev(node.args[0], st, fr))
+        x = self.unbox(self.ev(node.args[1], st, fr), "str")
+        return SV(self.voc.fn("accepts", self.voc.Val, z3.StringSort(), z3.BoolSort())(t, x.t), "bool")
+
+    def bi_matches(self, node, st, fr):
+        r = self.box(self.ev(node.args[0], st, fr))
+        x = self.unbox(self.ev(node.args[1], st, fr), "str")
+        return SV(self.voc.fn("matches", self.voc.Val, z3.StringSort(), z3.BoolSort())(r, x.t), "bool")
+
+    def bi_is_json(self, node, st, fr):
+        """is_json(v): v is a JSON value - None / bool / int / float / str / list of JSON values / dict from str to JSON values.
+        A recursive spec predicate: unfolded one level per trigger (json(v) together with an element / item term)."""
+        v = self.voc
+        J = v.fn("isjson", v.Val, z3.BoolSort())
+        if not getattr(self, "_json_done", False):
+            self._json_done = True
+            x, k = self.bv("jx"), self.bv("jk")
+            j = self.bv("jj", z3.IntSort())
+            kinds = z3.Or([x == v.NONE] + [v.ty(x) == v.cls[c] for c in ("bool", "int", "float", "str", "list", "dict")])
+            self.global_facts += [
+                z3.ForAll([x], z3.Implies(J(x), kinds), patterns=[J(x)]),
+                z3.ForAll([x, j], z3.Implies(z3.And(J(x), v.ty(x) == v.cls["list"], 0 <= j, j < v.slen(x)), J(v.sat(x, j))),
+                          patterns=[z3.MultiPattern(J(x), v.sat(x, j))]),
+                z3.ForAll([x, k], z3.Implies(z3.And(J(x), v.ty(x) == v.cls["dict"], v.dhas(x, k)), z3.And(v.ty(k) == v.cls["str"], J(v.dget(x, k)))),
+                          patterns=[z3.MultiPattern(J(x), v.dhas(x, k)), z3.MultiPattern(J(x), v.dget(x, k))]),
+            ]
+        x = self.box(self.ev(node.args[0], st, fr))
+        return SV(J(x), "bool")
+
+    def elem_type_fact_dictkeys(self, d):
+        v = self.voc
+        k = self.bv("jk")
+        return z3.ForAll([k], z3.Implies(v.dhas(d, k), v.ty(k) == v.cls["str"]), patterns=[v.dhas(d, k)])
